@@ -45,7 +45,7 @@ try:
             px = subprocess.run(["git", "-C", "/repo", "show", x, "--", f], capture_output=True, text=True).stdout
             if subprocess.run(["git", "-C", wt, "apply", "-R", "-"], input=px, capture_output=True, text=True).returncode == 0:
                 note += " [together with the part of {} in {}]".format(x, f)
-        env = dict(os.environ, VERIF_REPO=wt, PYTHONPATH=wt)
+        env = dict(os.environ, VERIF_REPO=wt, PYTHONPATH=wt, VERIF_OUT=os.path.join(root, "out"))   # evidence of these runs is scratch
         r = subprocess.run([V + "/check", pid], cwd=V, env=env, capture_output=True, text=True)
         nv = r.stdout.count("VIOLATION property=")
         res.append((pid, c, ("REPORTED AGAIN ({} violations)".format(nv) if r.returncode == 1 else "exit {} -- NOT REPORTED".format(r.returncode)) + note))
